@@ -9,7 +9,7 @@ def run(ctx):
     mods = ["TomlVerif.Gen.CheckLex", "TomlVerif.Props.C03", "driver"]
     lake_build(ctx, mods, {"TomlVerif.Gen.CheckLex": "table theorems", "TomlVerif.Props.C03": "property theorems"})
     audit(ctx, "TomlVerif.Props.C03", "TomlVerif/Props/C03.lean")
-    extra_props(ctx, ['C03Doc', 'C03Hdr', 'C03Nest', 'C03More', 'C03MoreInline', 'C03MoreDoc', 'C03MoreOrd', 'C03MoreCmt', 'C03MoreVS', 'C03MoreSum', 'C03MoreSem', 'C03MoreNad', 'C03MoreTko', 'C03MoreGen', 'C03MoreGen2'])
+    extra_props(ctx, ['C03Doc', 'C03Hdr', 'C03Nest', 'C03More', 'C03MoreInline', 'C03MoreDoc', 'C03MoreOrd', 'C03MoreCmt', 'C03MoreVS', 'C03MoreSum', 'C03MoreSem', 'C03MoreNad', 'C03MoreTko', 'C03MoreGen', 'C03MoreGen2', 'C03MoreGen3'])
     if ctx.tier == "thorough":
         leanchecker(ctx, "TomlVerif.Props.C03")
     tvh = cargo_build(ctx)
